@@ -20,6 +20,11 @@ LEXEMES = ["int", "char", "void", "return", "if", "else", "while", "for", "struc
            "é", "世", "\n", "\t", " ", "\r", "\r\n", "\x0c", "#define", "#include", "#if", "#endif", "#else",
            "defined", "L'a'", "u8\"x\"", "__attribute__", "asm"]
 
+def workload_frame():
+    from ..workload import FRAME
+    return FRAME
+
+
 REDUCED = "a0'\"\\\n/*.x?+=:"
 
 
@@ -63,7 +68,7 @@ class C05(Engine):
         # small hand-written members first ...
         for g in ("special_zoo", "special_odd", "special_legal", "special_literal", "special_clean", "special_notice"):
             ids = P.groups.get(g, [])
-            if g in ("special_literal", "special_odd", "special_legal") and q:
+            if g in ("special_literal",) and q:
                 r = core.derive_rng("c05." + g, self.seed, 0)
                 ids = sorted(r.sample(ids, 8))
             out += ids
@@ -102,29 +107,34 @@ class C05(Engine):
             step = 1
             if q and n > 400:
                 step = 2
+            # hand-written specials all start with the same 42 header: its fault points are enumerated for the generated and
+            # repository programs, not again for each of them
+            k0 = 0
+            if P.meta[b]["group"].startswith("special_") and content.startswith(workload_frame()):
+                k0 = sum(1 for a, e, t in spans if content.count("\n", 0, a) < 11)
             rng = core.derive_rng("c05.edits", self.seed, idx)
             # prefix at every token boundary, both file types
             for nm in names:
-                for k in range(0, n + 1, step):
+                for k in range(k0, n + 1, step):
                     cut = spans[k][0] if k < n else L
                     if k == n and cut == L and nm == f["name"]:
                         pass   # the undamaged file itself is part of the enumeration (k = n)
                     yield idx, self.derived(b, nm, [[cut, L, ""]], f"prefix_tok({k})", "prefix_tok")
                     idx += 1
             # the tail of a line lost: prefix at every token boundary inside a line, newline-terminated
-            for k in range(0, n, step):
+            for k in range(k0, n, step):
                 cut = spans[k][0]
                 if cut > 0 and content[cut - 1] != "\n":
                     yield idx, self.derived(b, names[k % 2], [[cut, L, "\n"]], f"line_tail_lost({k})", "line_tail_lost")
                     idx += 1
             # delete every token, own type (other type sampled)
-            for k in range(0, n, step):
+            for k in range(k0, n, step):
                 a, e, _ = spans[k]
                 nm = names[0] if (q or k % 2 == 0) else names[1]
                 yield idx, self.derived(b, nm, [[a, e, ""]], f"tok_del({k})", "tok_del")
                 idx += 1
             # middle of every multi-character token
-            for k in range(0, n, step):
+            for k in range(k0, n, step):
                 a, e, t = spans[k]
                 if e - a >= 2:
                     mid = a + (e - a) // 2
@@ -135,7 +145,7 @@ class C05(Engine):
                         idx += 1
             # short read at every line boundary (a torn write typically ends on a line), both file types
             for nm in names:
-                for k2 in range(0, n):
+                for k2 in range(k0, n):
                     if spans[k2][2] == "NEWLINE":
                         yield idx, self.derived(b, nm, [[spans[k2][1], L, ""]], f"prefix_line(tok {k2})", "prefix_line")
                         idx += 1
@@ -286,7 +296,7 @@ class C05(Engine):
         # every character class of the lexical alphabet as a long run of one character (lexer only: cheap)
         singles = list("0179aAzZ_xXeEpPuUlLfF+*/%<>=!&|^~,;:)]}$`") + ["\t", " ", "\n", "\r", "é", "1'", "1.", ".1", "e+", "0.", "''"]
         for ch in singles:
-            for ln in ([40, 400] if q else [30, 64, 400, 2000]):
+            for ln in ([40, 400, 5000] if q else [30, 64, 400, 2000, 5000, 12000]):
                 batch.append(ch * ln)
                 batch.append("a = " + ch * ln + ";")
             yield from flush("lex_long_run")
